@@ -171,7 +171,7 @@ Proof.
   destruct (vef_view (i_el v) n (len (i_el v))) as [[r out] el'] eqn:Ev.
   destruct (store_iovecs m1 (region_base (len m)) out) as [m2|] eqn:Hst; cbn [bind]; [|discriminate].
   intros H. injection H as <- <- <- <- <-. right.
-  split; [rewrite (vef_view_ret (lens m) _ _ _ Hel Hn ltac:(lia) _ _ _ Ev); lia|]. split; [reflexivity|].
+  split; [rewrite (vef_view_ret (lens m) (i_el v) n (len (i_el v)) Hel Hn (Z.le_refl _) _ _ _ Ev); lia|]. split; [reflexivity|].
   intros Hle.
   destruct (vef_view_copy m Hwf (i_el v) n (len (i_el v)) Hel Hp ltac:(lia) ltac:(lia) _ _ _ Ev)
     as [d [Hc [Hfo [Helo [Hpo [Hpv [Hlen Hsep]]]]]]].
